@@ -2526,7 +2526,7 @@ bool unitsAreEquivalent(const ModelPtr &model,
 
     bool status = true;
     for (const auto &basePair : unitMap) {
-        if (basePair.second != 0.0) {
+        if (!areNearlyEqual(basePair.second, 0.0)) {
             std::string num = std::to_string(basePair.second);
             num.erase(num.find_last_not_of('0') + 1, num.length());
             num = std::regex_replace(num, fullStopAtEndRegex, "");
